@@ -46,6 +46,12 @@ type lcase struct {
 	Attempts [][]seg `json:"attempts"` // what attempt k prints (k = 0 …)
 	Done     bool    `json:"done"`     // hand a (drained) done channel to Schedule, as the agent does
 	TimeoutS int     `json:"timeout"`
+	// slow status consumer, as in the agent (status + history write + report per event): the reader of the done
+	// channel sleeps SlowMs per received node; a first step `pre` keeps it busy while the retried step fails, so the
+	// failed attempt's worker is parked in `done <- node` while the loop already runs the next attempt, whose LAST
+	// attempt waits LastSleepMs before it prints (it must still be running when the parked worker gets out).
+	SlowMs      int `json:"slow_ms"`
+	LastSleepMs int `json:"last_sleep_ms"`
 }
 
 // Pat is the position code: byte at position pos of stream strm in attempt att.
@@ -157,6 +163,9 @@ func runOne(c lcase) (res map[string]any) {
 	body.WriteString("d=" + tmp + "\nk=$(cat $d/count 2>/dev/null || echo 0)\necho $((k+1)) > $d/count\ncase $k in\n")
 	for a, segs := range c.Attempts {
 		body.WriteString(fmt.Sprintf(" %d)\n", a))
+		if c.LastSleepMs > 0 && a == len(c.Attempts)-1 {
+			body.WriteString(fmt.Sprintf("  sleep %d.%03d\n", c.LastSleepMs/1000, c.LastSleepMs%1000))
+		}
 		po, pe := 0, 0
 		for i, s := range segs {
 			f := filepath.Join(tmp, fmt.Sprintf("seg_%d_%d", a, i))
@@ -203,7 +212,12 @@ func runOne(c lcase) (res map[string]any) {
 	if c.Limit > 0 {
 		step.RetryPolicy = &dag.RetryPolicy{Limit: c.Limit, Interval: 2 * time.Millisecond}
 	}
-	g, err := scheduler.NewExecutionGraph(quietLg, step)
+	steps := []dag.Step{step}
+	if c.SlowMs > 0 {
+		steps = []dag.Step{{Name: "pre", CmdWithArgs: "true", Dir: tmp}, step}
+		steps[1].Depends = []string{"pre"}
+	}
+	g, err := scheduler.NewExecutionGraph(quietLg, steps...)
 	if err != nil {
 		res["harness_err"] = "graph: " + err.Error()
 		return
@@ -211,10 +225,13 @@ func runOne(c lcase) (res map[string]any) {
 	sc := scheduler.New(&scheduler.Config{LogDir: logDir, Logger: quietLg, ReqID: "c12req00"})
 	scheduler.VerifSetPause(sc, 3*time.Millisecond)
 	var done chan *scheduler.Node
-	if c.Done {
+	if c.Done || c.SlowMs > 0 {
 		done = make(chan *scheduler.Node)
 		go func() {
 			for range done {
+				if c.SlowMs > 0 {
+					time.Sleep(time.Duration(c.SlowMs) * time.Millisecond)
+				}
 			}
 		}()
 	}
@@ -240,6 +257,11 @@ func runOne(c lcase) (res map[string]any) {
 		close(done)
 	}
 	node := g.Nodes()[0]
+	for _, nd := range g.Nodes() {
+		if nd.Data().Step.Name == "s" {
+			node = nd
+		}
+	}
 	st := node.State()
 	res["status"] = st.Status.String()
 	res["retry_count"] = st.RetryCount
@@ -250,7 +272,7 @@ func runOne(c lcase) (res map[string]any) {
 	outRep, outB := rep(outF)
 	errRep, errB := rep(errF)
 	res["log"], res["out"], res["err"] = logRep, outRep, errRep
-	logs, _ := filepath.Glob(filepath.Join(logDir, "*.log"))
+	logs, _ := filepath.Glob(filepath.Join(logDir, "s.*.log"))
 	res["log_files"] = len(logs)
 	// script files left behind
 	left, _ := filepath.Glob(filepath.Join(tmp, "blackdagger_script-*"))
